@@ -23,7 +23,11 @@ EXPLANATION = ("Deductive (counted under obligations/discharged): for a rectangl
                "returns True exactly when the point lies in the convex quadrilateral spanned by the shape's own `vertices`: each edge's "
                "half-plane form is proved equal to (side length) x (signed distance of the un-rotated point) as an exact polynomial "
                "identity modulo c^2+s^2=1, and the decision is the sign test on those distances; circle containment is the open disc; the circle border point lies at distance ratio*r in the requested direction; "
-               "random points in a circle/rectangle satisfy their bounds for every value of the uninterpreted draws.  "
+               "random points in a circle/rectangle satisfy their bounds for every value of the uninterpreted draws.  Cluster layout for "
+               "symbolic cell radius / position / rotation: every cell centre is exactly the rigid image of a constant unit layout (itself "
+               "within 1e-14 of the hexagonal lattice, 50-digit reference; squares: the integer grid), sectors of 3-sector cells are the "
+               "hexagons of radius r/sqrt 3 at the documented places and follow every sequence of <= 3 setter calls; hexagon vertices are "
+               "the rigid image of a unit hexagon within 1e-15 of the regular one.  "
                "Hexagon containment goes through matplotlib's Path (external, T6), the generic border-point construction has an allclose "
                "branch and the hexagonal ring placement is trigonometry at multiples of 30 degrees with float tolerances: those parts are "
                "bounded run-time contract checks on dense grids (labelled bounded) - hence level 'other'.")
